@@ -765,6 +765,19 @@ func (a *effectsAnalysis) callEffects(fn *ssa.Function, ef *Effects, site ssa.Ca
 		return // package initialisers of imports
 	}
 	m, ok := models[name]
+	if !ok && isStdlibCallee(name) {
+		// standard-library default: a function without a model entry can write
+		// only through the pointers, slices and maps it is handed; it cannot
+		// reach this repository's package state or retain beyond its results
+		for _, arg := range full {
+			switch arg.Type().Underlying().(type) {
+			case *types.Pointer, *types.Slice, *types.Map:
+				p := a.argPointeeProv(arg)
+				a.write(ef, p, WriteSite{Instr: site, What: "call " + name + " (stdlib default: may write its pointer arguments)", Prov: p})
+			}
+		}
+		return
+	}
 	if !ok {
 		ef.Unmodelled[name] = true
 		for _, arg := range full {
@@ -826,4 +839,20 @@ func sameAddr(a, b ssa.Value) bool {
 	fa, ok1 := a.(*ssa.FieldAddr)
 	fb, ok2 := b.(*ssa.FieldAddr)
 	return ok1 && ok2 && fa.Field == fb.Field && sameAddr(fa.X, fb.X)
+}
+
+// isStdlibCallee: the callee's package path has no dot in its first segment.
+func isStdlibCallee(name string) bool {
+	n := strings.TrimPrefix(name, "invoke ")
+	n = strings.TrimLeft(n, "(*")
+	if n == "" || strings.HasPrefix(n, "interface{") || n == "dynamic" || strings.HasPrefix(n, "builtin ") {
+		return false
+	}
+	seg := n
+	if i := strings.IndexByte(seg, '/'); i >= 0 {
+		seg = seg[:i]
+	} else if i := strings.IndexByte(seg, '.'); i >= 0 {
+		seg = seg[:i]
+	}
+	return seg != "" && !strings.Contains(seg, ".")
 }
